@@ -15,7 +15,12 @@ What is transcribed (from `src/kdumpfile/context.c`, `attr.c`, `vtop.c`,
   (`m` allocations owned by the new dictionary) and the exits `err_xlat`,
   `err_dict`, `err_shared`, including the reference counts of the three
   objects shared with the original (`shared`, `dict`, `xlat`),
-* `add_pfn_region` (grow-by-`RGN_ALLOC_INC` array).
+* `add_pfn_region` (grow-by-`RGN_ALLOC_INC` array),
+* `per_ctx_alloc` / `per_ctx_free` over the `c` contexts of an object (all-or-nothing
+  with roll-back), `lkcd_realloc_compressed` + `def_realloc_caches` as run by
+  `kdump_set_attr("arch.page_size")` on an open LKCD dump (`setPageSize`),
+* `mem_pagemap_revalidate` of diskdump / SADUMP under `kdump_get_attr` (`pagemapGet`:
+  shared lock, `cache_lock`, growth steps of the region array).
 
 The allocator is a parameter: the `failAt`-th allocation attempt of the call
 fails (0 = none).  The state is a ledger: the blocks the call allocated and has
@@ -36,6 +41,8 @@ inductive Ev where
   | F (i : Nat)      -- allocation attempt i failed
   | f (i : Nat)      -- block of attempt i freed
   | R | W | U        -- rdlock / wrlock / unlock of shared->lock
+  | M | m            -- lock / unlock of shared->cache_lock (a mutex)
+  | r (i : Nat)      -- realloc attempt i grew an existing block in place of a new one
   deriving DecidableEq, Repr
 
 structure St where
@@ -45,6 +52,8 @@ structure St where
   rd : Nat := 0
   wr : Nat := 0
   bad : Bool := false
+  /-- holds of this thread on shared->cache_lock (a non-recursive mutex) -/
+  mtx : Nat := 0
   /-- reference counts of the pre-existing objects (clone only) -/
   shRef : Nat := 1
   dictRef : Nat := 1
@@ -257,10 +266,119 @@ def addRegion (inc : Nat) (mp : PfnMap) (rgn : Nat) (allocOk : Bool) : Option Pf
     let mp' : PfnMap := { mp with regions := mp.regions ++ [rgn] }
     (some mp', mp')
 
+/-! ### per-context slots (`per_ctx_alloc`, `per_ctx_free`), LKCD page-size change -/
+
+/-- A group of `k` allocations that is kept only as a whole: `per_ctx_alloc` over the
+`k` contexts on `shared->ctx` (on failure the buffers obtained so far are released
+again and the slot size is reset) and `cache_alloc` (`k` blocks). -/
+def allocAll (k : Nat) (s : St) : Option (List Nat) × St :=
+  match allocN k s with
+  | (false, got, s) => (none, freeAll got s)
+  | (true, got, s) => (some got, s)
+
+/-- `per_ctx_alloc(shared, sz)` on an object with `c` contexts -/
+def perCtxAlloc (c : Nat) (s : St) : Option (List Nat) × St := allocAll c s
+
+/-- `per_ctx_free(shared, slot)`: one buffer per context -/
+def perCtxFree (bufs : List Nat) (s : St) : St := freeAll bufs s
+
+/-- The part of an open LKCD object that a page-size change touches: the buffers of
+the compressed-data slot (`cbuf_slot`, one per context; `none` = slot `-1`) and the
+blocks of the page cache. -/
+structure PgObj where
+  cbuf : Option (List Nat) := none
+  cache : List Nat := []
+  deriving DecidableEq, Repr
+
+def PgObj.bufs (o : PgObj) : List Nat := o.cbuf.getD []
+
+/-- `slotFirst = true`: the code as it is (new slot allocated before the old one is
+released); `false`: the old slot released first. -/
+structure PgFix where
+  slotFirst : Bool := true
+  deriving DecidableEq, Repr
+
+/-- One run of the `arch.page_size` post-set chain on an open LKCD dump:
+`lkcd_realloc_compressed` (new slot for `c` contexts, then the old slot is released),
+then the parent hook `page_size_post_hook` -> `def_realloc_caches` (`cache_alloc` of
+`m` blocks, then `cache_free` of the old cache). -/
+def pgRound (fx : PgFix) (c m : Nat) (o : PgObj) (s : St) : Bool × PgObj × St :=
+  let s := if fx.slotFirst then s else perCtxFree o.bufs s
+  match perCtxAlloc c s with
+  | (none, s) => (false, o, s)                  -- "Cannot allocate buffer for compressed data"
+  | (some nw, s) =>
+    let s := if fx.slotFirst then perCtxFree o.bufs s else s
+    let o := { o with cbuf := some nw }
+    match allocAll m s with
+    | (none, s) => (false, o, s)                -- "Cannot allocate cache"
+    | (some nc, s) => (true, { o with cache := nc }, freeAll o.cache s)
+
+/-- `kdump_set_attr(ctx, "arch.page_size", v)` on an open LKCD dump under the write
+lock: the chain runs twice (for the implied `arch.page_shift` update made by the
+pre-set hook, then for the attribute itself). -/
+def setPageSize (fx : PgFix) (c m : Nat) (o : PgObj) (s : St) : Bool × PgObj × St :=
+  let s := wrlock s
+  match pgRound fx c m o s with
+  | (false, o, s) => (false, o, unlock s)
+  | (true, o, s) =>
+    match pgRound fx c m o s with
+    | (false, o, s) => (false, o, unlock s)
+    | (true, o, s) => (true, o, unlock s)
+
+def setPageSizeTotal (c m : Nat) : Nat := 2 * (c + m)
+
+/-! ### page map built on first use (`mem_pagemap_revalidate`) -/
+
+def mlock (s : St) : St :=
+  if s.mtx > 0 then { s with bad := true, trace := .M :: s.trace }     -- never returns
+  else { s with mtx := 1, trace := .M :: s.trace }
+
+def munlock (s : St) : St :=
+  if s.mtx > 0 then { s with mtx := s.mtx - 1, trace := .m :: s.trace }
+  else { s with bad := true, trace := .m :: s.trace }
+
+/-- `realloc` of a block the object already has: an attempt that can fail, the
+ledger does not change -/
+def regrow (s : St) : Bool × St :=
+  if s.cnt + 1 = s.failAt then
+    (false, { s with cnt := s.cnt + 1, trace := .F (s.cnt + 1) :: s.trace })
+  else
+    (true, { s with cnt := s.cnt + 1, trace := .r (s.cnt + 1) :: s.trace })
+
+def regrowN : Nat → St → Bool × St
+  | 0, s => (true, s)
+  | k+1, s =>
+    match regrow s with
+    | (false, s) => (false, s)
+    | (true, s) => regrowN k s
+
+/-- `unlockOnError = true`: the code as it is; `false`: the error exit returns with
+`cache_lock` held. -/
+structure PmFix where
+  unlockOnError : Bool := true
+  deriving DecidableEq, Repr
+
+/-- `kdump_get_attr` of `memory.pagemap` while it is still invalid: shared read lock,
+`cache_lock`, `pfn_regions_from_bitmap` with `g` growth steps of the region array (the
+first one allocates it, the later ones enlarge it; what has been built stays with the
+format data and is released by its cleanup), both locks released on every exit. -/
+def pagemapGet (fx : PmFix) (g : Nat) (s : St) : Bool × St :=
+  let s := mlock (rdlock s)
+  let fail := fun (s : St) => (false, unlock (if fx.unlockOnError then munlock s else s))
+  match g with
+  | 0 => (true, unlock (munlock s))
+  | g+1 =>
+    match alloc s with
+    | (none, s) => fail s
+    | (some _, s) =>
+      match regrowN g s with
+      | (false, s) => fail s
+      | (true, s) => (true, unlock (munlock s))
+
 /-! ### canonical trace (what the correspondence stream compares) -/
 
 def Ev.show : Ev → String
-  | .a i => s!"a{i}" | .F i => s!"F{i}" | .f i => s!"f{i}" | .R => "R0" | .W => "W0" | .U => "U0"
+  | .a i => s!"a{i}" | .F i => s!"F{i}" | .f i => s!"f{i}" | .R => "R0" | .W => "W0" | .U => "U0" | .M => "M1" | .m => "m1" | .r i => s!"r{i}"
 
 /-- insertion sort of a burst of frees -/
 def insertSorted (i : Nat) : List Nat → List Nat
